@@ -723,6 +723,96 @@ Proof.
   destruct (Hc _ Hn) as [[_ HN] _]. now rewrite Hpc in HN.
 Qed.
 
+(* ---------- no stuck state ---------- *)
+Definition stuck (e : err) : bool := match e with ENewer | ECancelled | ERegMissing => true | _ => false end.
+
+Lemma pdone_grd_return nd cs e : n_pc (grd_return nd cs) = PDone (RErr e) -> stuck e = true -> n_pc nd = PDone (RErr e).
+Proof.
+  unfold grd_return. destruct (n_op nd); repeat match goal with
+    | |- context [match ?x with _ => _ end] => destruct x
+    end; cbn; intros E S; try discriminate; try (injection E as <-; discriminate); exact E.
+Qed.
+Lemma pdone_grd_reload nd lc e : n_pc (grd_reload nd lc) = PDone (RErr e) -> stuck e = true -> False.
+Proof. unfold grd_reload. destruct (5 <=? lc)%nat; cbn; intros E S; try discriminate. injection E as <-. discriminate. Qed.
+Lemma pdone_load_reload nd la e : n_pc (load_reload nd la) = PDone (RErr e) -> stuck e = true -> False.
+Proof. unfold load_reload. destruct (5 <=? la)%nat; cbn; intros E S; try discriminate. injection E as <-. discriminate. Qed.
+Lemma pdone_main_retry nd e : n_pc (main_retry nd) = PDone (RErr e) -> stuck e = true -> False.
+Proof. unfold main_retry. destruct (max_att (n_op nd) <=? n_att nd)%nat; cbn; intros E S; try discriminate. injection E as <-. discriminate. Qed.
+Lemma pdone_load_iter nd la rest acc pick e : n_pc (load_iter nd la rest acc pick) = PDone (RErr e) -> False.
+Proof.
+  unfold load_iter. destruct rest; cbn; [discriminate|].
+  destruct (aget (sn_reg (n_reg nd)) (choose pick (n :: rest))); cbn; discriminate.
+Qed.
+
+Lemma do_step_no_stuck st nd expired pick st' nd' b e :
+  do_step st nd expired pick = (st', nd', b) ->
+  SInv st -> NodeInv st nd ->
+  n_pc nd' = PDone (RErr e) -> stuck e = true -> n_pc nd = PDone (RErr e).
+Proof.
+  unfold do_step. intros H HS [Hwf HN] Hd Hs.
+  destruct (n_pc nd) eqn:Hpc;
+    repeat match type of H with
+    | context [match ?x with _ => _ end] => destruct x eqn:?
+    | context [if ?x then _ else _] => destruct x eqn:?
+    end; injection H as <- <- <-; cbn in Hd;
+    try discriminate;
+    try (injection Hd as <-; discriminate);
+    try (exfalso; eapply pdone_grd_reload; eauto; fail);
+    try (exfalso; eapply pdone_load_reload; eauto; fail);
+    try (exfalso; eapply pdone_main_retry; eauto; fail);
+    try (exfalso; eapply pdone_load_iter; eauto; fail);
+    try (apply pdone_grd_return in Hd; [cbn in Hd; congruence | exact Hs]; fail);
+    try (destruct c; cbn in Hd; first [exfalso; eapply pdone_grd_reload; eauto; fail | exfalso; eapply pdone_load_reload; eauto; fail
+                                     | exfalso; eapply pdone_load_iter; eauto; fail
+                                     | apply pdone_grd_return in Hd; [cbn in Hd; congruence | exact Hs]]; fail).
+  all: try congruence.
+  - (* ENewer: the config document is never ahead of the registry *)
+    exfalso. destruct HN as (HF & (e0 & He & Hw & Hnd) & _).
+    assert (aget (regc st) d = Some e0) as He' by (unfold regc; now rewrite <- HF).
+    pose proof (proj1 HS d) as HL. rewrite He', Heqo in HL.
+    assert (is_deleted (rv_ver (e_cur e0)) = false) as Hnd' by (now rewrite Hw).
+    destruct (linked_live _ _ _ HL Hnd') as [_ Hcase]. apply N.ltb_lt in Heqb2. rewrite <- Hw in Heqb2.
+    destruct Hcase as [H0|[_ H0]]; [rewrite H0 in Heqb2; cbn in Heqb2; lia | lia].
+  - exfalso. destruct HN as (_ & (e0 & He & _) & _). discriminate.
+  - exfalso. destruct HN as (_ & _ & _ & e0 & He & Hp & _). unfold rollback_db in Heqo0. rewrite He, Hp in Heqo0. discriminate.
+  - exfalso. destruct HN as (_ & Hc & _). unfold cfg_touch in Heqo. rewrite Hc, N.eqb_refl in Heqo. discriminate.
+  - exfalso. destruct (main_next_post _ _ _ Heqo) as [_ Hnd]. eapply Hnd. exact Hd.
+  - exfalso. destruct HN as (_ & Hsh). unfold main_shape in Hsh. unfold main_next in Heqo.
+    destruct (n_op nd); try destruct cs as [[? ?]|]; try discriminate; exact Hsh.
+Qed.
+
+(* no node of a crash-sequential run ever fails with one of the "stuck" errors: config document newer than the
+   registry (nothing could ever repair that), roll-back cancelled, registry entry missing *)
+Definition ok_res (nd : node) : Prop := forall e, n_pc nd = PDone (RErr e) -> stuck e = false.
+
+Lemma run_seq_nostuck evs : forall w cur,
+  WInv w cur -> mono_from cur evs -> Forall ok_res (w_nodes w) -> Forall ok_res (w_nodes (fold_left step evs w)).
+Proof.
+  induction evs as [|ev evs IH]; intros w cur HW Hm HF; cbn; [exact HF|].
+  destruct ev as [i ex pk|j]; cbn in Hm.
+  - destruct Hm as [Hle Hm]. apply (IH _ i); [eapply step_seq; eauto | exact Hm |].
+    cbn. destruct (nth_error (w_nodes w) i) as [nd|] eqn:Hn; [|exact HF].
+    destruct (n_crashed nd || is_done nd); [exact HF|].
+    destruct (do_step (w_st w) nd ex pk) as [[st1 nd1] bad] eqn:D. cbn.
+    apply Forall_set_nth; [exact HF|]. intros e Hd. destruct (stuck e) eqn:Hs; [|reflexivity].
+    destruct (WInv_node _ _ _ _ HW Hle Hn) as [HN _]. destruct HW as (HS & _).
+    pose proof (do_step_no_stuck _ _ _ _ _ _ _ _ D HS HN Hd Hs) as Hd0.
+    rewrite (Forall_nth_error _ _ _ _ HF Hn e Hd0) in Hs. discriminate.
+  - apply (IH _ cur); [now apply crash_seq | exact Hm |].
+    cbn. destruct (nth_error (w_nodes w) j) as [nd|] eqn:Hn; [|exact HF]. cbn.
+    apply Forall_set_nth; [exact HF|]. exact (Forall_nth_error _ _ _ _ HF Hn).
+Qed.
+
+Theorem no_stuck_seq ops evs i nd e :
+  sequential evs -> nth_error (w_nodes (run ops evs)) i = Some nd -> n_pc nd = PDone (RErr e) -> stuck e = false.
+Proof.
+  intros Hm Hn Hd.
+  assert (Forall ok_res (w_nodes (run ops evs))) as HF.
+  { unfold run, run_from. eapply run_seq_nostuck; [apply WInv_init, SInv_init | exact Hm |].
+    cbn. apply Forall_forall. intros nd0 Hin. apply in_map_iff in Hin as (o & <- & _). intros e0 E. destruct o; discriminate. }
+  exact (Forall_nth_error _ _ _ _ HF Hn e Hd).
+Qed.
+
 (* ---------- frame: a node only changes its own database; a loader only one that is not steady ---------- *)
 Definition same_db (st st' : store) (d : N) : Prop :=
   aget (regc st') d = aget (regc st) d /\
@@ -855,12 +945,12 @@ Proof.
   - destruct (nth_error (w_nodes w) i) as [nd|] eqn:Hn; [|exact HF].
     destruct (n_crashed nd || is_done nd); [exact HF|].
     destruct (do_step (w_st w) nd ex pk) as [[st1 nd1] bad] eqn:D. cbn.
-    intros j nd' Hj. destruct (Nat.eq_dec i j) as [->|Hne].
+    intros j nd' Hj. cbn in Hj. destruct (Nat.eq_dec i j) as [->|Hne].
     + rewrite (nth_error_set_nth_eq _ _ _ _ Hn) in Hj. injection Hj as <-.
       rewrite (do_step_op _ _ _ _ _ _ _ D). now apply HF.
     + rewrite nth_error_set_nth_neq in Hj by exact Hne. now apply HF.
   - destruct (nth_error (w_nodes w) i) as [nd|] eqn:Hn; [|exact HF]. cbn.
-    intros j nd' Hj. destruct (Nat.eq_dec i j) as [->|Hne].
+    intros j nd' Hj. cbn in Hj. destruct (Nat.eq_dec i j) as [->|Hne].
     + rewrite (nth_error_set_nth_eq _ _ _ _ Hn) in Hj. injection Hj as <-. cbn. now apply HF.
     + rewrite nth_error_set_nth_neq in Hj by exact Hne. now apply HF.
 Qed.
@@ -897,7 +987,7 @@ Proof.
       destruct (n_crashed nd || is_done nd); [exact Hsame|].
       destruct (do_step (w_st w) nd ex pk) as [[st1 nd1] bad] eqn:D. cbn.
       eapply same_db_trans; [exact Hsame|].
-      destruct (Hc _ Hn) as [HN _].
+      destruct (Hc _ eq_refl) as [HN _].
       eapply do_step_frame; eauto.
       * eapply steady_same; eauto.
       * apply (Hops i (n_op nd)); [exists ex, pk; now left | now apply HF].
